@@ -12,6 +12,7 @@
 #ifndef VC_H
 #define VC_H
 #include <stdio.h>
+#include <fnmatch.h>
 #include <stdlib.h>
 #include <string.h>
 #include <stdarg.h>
@@ -99,11 +100,25 @@ static struct { char cls[160]; long n; } vc_cls[VC_MAXCLS];
 static int vc_ncls;
 static int vc_viol_print_per_class = 3;
 static inline void vc_sanitize(char *s) { for (; *s; s++) if (*s == '\t' || *s == '\n' || *s == '\r') *s = ' '; }
+/* the property being checked owns a set of class patterns (env VC_CLASSES, from registry.py): only its own violations count
+ * towards the "enough counterexamples" cap of a search, so that a flood of another oracle's findings on the same search does
+ * not end the search before this property's oracle has seen the damaged states */
+static long vc_nviol_rel;
+static int vc_class_relevant(const char *c) {
+    static const char *pats; static int init;
+    if (!init) { pats = getenv("VC_CLASSES"); init = 1; }
+    if (!pats || !*pats || !strncmp(c, "crash:", 6) || !strncmp(c, "hang:", 5)) return 1;
+    char buf[1024]; snprintf(buf, sizeof buf, "%s", pats);
+    for (char *t = strtok(buf, ","); t; t = strtok(NULL, ",")) if (fnmatch(t, c, 0) == 0) return 1;
+    return 0;
+}
+#define VC_ENOUGH_VIOLATIONS() (vc_nviol_rel > 400 || vc_nviol > 20000)
 static void vc_viol_key(const char *cls, const char *key, const char *fmt, ...) {
     char c[160], d[1024];
     snprintf(c, sizeof c, "%s", cls); vc_sanitize(c);
     va_list ap; va_start(ap, fmt); vsnprintf(d, sizeof d, fmt, ap); va_end(ap); vc_sanitize(d);
     vc_nviol++;
+    if (vc_class_relevant(c)) vc_nviol_rel++;
     int i;
     for (i = 0; i < vc_ncls; i++) if (!strcmp(vc_cls[i].cls, c)) break;
     if (i == vc_ncls) { if (vc_ncls < VC_MAXCLS) { strcpy(vc_cls[vc_ncls].cls, c); vc_cls[vc_ncls++].n = 0; } else i = VC_MAXCLS - 1; }
